@@ -11,6 +11,8 @@ package zkenc
 
 //@ func (*Proof).Verify
 //@   nopanic[C05]
+//@   modifies nothing
+//@   allocates
 //@   requires group != nil && hash != nil && hash.h != nil && public.K != nil && pkok(public.Prover) && pedok(public.Aux)
 
 //@ func challenge
